@@ -352,13 +352,21 @@ func (m *QuestionModel) verifyChoiceMatch(answer Answer) error {
 	correctByIndex := answer.correctAnswerIndices()
 	generated := m.Question.RenderOutput()
 	outputs := generateAnserOutputs(m.AnswerChoices)
+	marked := 0
 	for i, output := range outputs {
+		if correctByIndex[i] {
+			marked++
+		}
 		if correctByIndex[i] && generated != output {
 			return fmt.Errorf("%w (%s): answer %q does not match question: %q != %q", ErrWrongAnswer, m.Filename(), indexToLetter(i), strings.TrimSuffix(output, "\n"), strings.TrimSuffix(generated, "\n"))
 		}
 		if !correctByIndex[i] && generated == output {
 			return fmt.Errorf("%w (%s): expected %q: answer %q matches question: %q == %q", ErrWrongAnswer, m.Filename(), answer.correctAnswers(), indexToLetter(i), strings.TrimSuffix(output, "\n"), strings.TrimSuffix(generated, "\n"))
 		}
+	}
+	if marked != len(correctByIndex) {
+		// an answer letter for which there is no choice cannot be correct
+		return fmt.Errorf("%w (%s): expected %q: found only %d answer choices", ErrWrongAnswer, m.Filename(), answer.correctAnswers(), len(outputs))
 	}
 	return nil
 }
